@@ -231,3 +231,11 @@ def alpha(node) -> str:
                 mapping[n.id] = f"v{len(mapping)}"
             n.id = mapping[n.id]
     return src(node)
+
+
+def sl(node) -> str:
+    """source of a subscript's slice without the parentheses ast.unparse puts around tuples"""
+    s = src(node)
+    if isinstance(node, ast.Tuple) and s.startswith("(") and s.endswith(")"):
+        s = s[1:-1]
+    return s
